@@ -228,7 +228,7 @@ def r4_caches(idx, r):
     for meth in ("setTemperature", "setDimension"):
         f = idx.method(COMP, meth)
         fl = Flow(f.node, lambda n: ["clr"] if isinstance(n, ast.Call) and dotted(n.func) == "self.clearLinkedCache" else []).run()
-        bad = [e for e in fl.normal_exits() if e.state.get("clr", (0, 0))[0] < 1 and not (e.kind == "return" and e.node is not None and any(norm(t) == "not key" for t, p in path_conditions(f.node, e.node) if p))]
+        bad = [e for e in fl.normal_exits() if e.state.get("clr", (0, 0))[0] < 1 and not (e.kind == "return" and e.node is not None and any(norm(t) == "key" and not p for t, p in path_conditions(f.node, e.node)))]
         r.require(not bad, f"Component.{meth}:invalidates", f, msg=f"{meth} must clear linked caches on every path")
     ga = idx.method("armi.reactor.blocks.Block", "getArea")
     gets = [c for c in iter_calls(ga.node) if dotted(c.func) == "self._getCached"]
